@@ -123,7 +123,8 @@ InitTyped   == \E E \in SUBSET UPairs : \E x, z \in [Node -> Types] :
 InitTiming  == \E E \in SUBSET UPairs : \E d \in [Node -> Vals] :
                    \E dl \in [DirEdges(GraphOf(E)) -> Vals] :
                        Start("TIMING", [g |-> GraphOf(E), dur |-> d, delay |-> dl])
-InitGiven   == \E i \in 1..Len(Given) : Start(Given[i][1], Given[i][2])
+InitGiven   == LET gv == Given   \* evaluated once (Given is usually a long generated tuple)
+               IN \E i \in 1..Len(gv) : Start(gv[i][1], gv[i][2])
 
 Compose == {<<pq[1][1], pq[2][2]>> : pq \in {x \in R \X R : x[1][2] = x[2][1]}}
 
